@@ -337,10 +337,19 @@ fn check_faults(t: &mut Tape, ctx: &Ctx) -> Outcome {
             return Outcome::fail("program-with-errors-executed", format!("{:?} printed {:?} (compile-time errors: {:?})", cmd, out, errs), format!("{}\n> {}", case, cmd));
         }
     }
-    term.line("PRINT 6*7", &mut op);
-    let ev = flat(&term.take());
-    if ev != " 42 \n" {
-        return Outcome::fail("direct-statement-blocked", format!("PRINT 6*7 printed {:?}", ev), case);
+    // direct statements that stay inside the direct line, including ones that jump within it
+    for (cmd, want) in [
+        ("PRINT 6*7", " 42 \n"),
+        ("WHILE Q7<3:Q7=Q7+1:PRINT Q7;:WEND:PRINT", " 1  2  3 \n"),
+        ("FOR Q8=1 TO 2:PRINT Q8;:NEXT:PRINT", " 1  2 \n"),
+        ("IF 0 THEN PRINT 5 ELSE PRINT 6", " 6 \n"),
+        ("Q9=0:WHILE Q9<2:Q9=Q9+1:WEND:PRINT Q9", " 2 \n"),
+    ] {
+        term.line(cmd, &mut op);
+        let ev = flat(&term.take());
+        if ev != want {
+            return Outcome::fail("direct-statement-blocked", format!("{:?} printed {:?}, expected {:?}", cmd, ev, want), format!("{}\n> {}", case, cmd));
+        }
     }
     let _ = compile_error_expected;
     labels.sort();
